@@ -411,4 +411,40 @@ def St.startNodesFrom (s : St) (n : Node) : List Node :=
       (fun x => (succsOf s.ge x).isEmpty))
   else []
 
+/-! ### value assignment with the recalculation option on (`System._recalc_dependents = True`)
+
+`set_value_from_key`: `targets = tracegraph.get_startnodes_from(node)` – the leaves among the
+dependents, taken BEFORE anything is cleared –, then the assignment as with the option off
+(`clear_value_at`, `_store_value`, `add_node`, `input_keys.add`), then
+`for trg in targets: trg[OBJ].get_value_from_key(trg[KEY])`: one top-level evaluation per former
+leaf dependent, one after the other.  A recomputation that fails raises `FormulaError` out of the
+loop, hence out of the assignment: the value stays assigned, the targets evaluated before stay
+recomputed, the remaining targets are not evaluated.  (Python iterates over a `set` of nodes: the
+order of the targets is not determined by the program; the model takes the order of
+`startNodesFrom`.  When no recomputation fails the order is irrelevant for values and graphs.) -/
+
+inductive RecalcRes
+  | ok
+  /-- `None` where it is not allowed: refused before anything is changed -/
+  | refused (e : EditErr)
+  /-- the recomputation of the former leaf dependent `t` failed: `FormulaError` out of the assignment -/
+  | failed (t : Node) (e : Err) (tb : List Node)
+deriving DecidableEq, Repr
+
+/-- `for trg in targets: trg[OBJ].get_value_from_key(trg[KEY])` -/
+def St.recalcTargets (env : Env) : List Node → St → RecalcRes × St
+  | [], s => (.ok, s)
+  | t :: ts, s =>
+    match (evalTop env t s).1 with
+    | .ok _ => St.recalcTargets env ts (evalTop env t s).2
+    | .formulaError e tb => (.failed t e tb, (evalTop env t s).2)
+
+/-- `CellsImpl.set_value_from_key` from outside any formula, recalculation option on -/
+def St.setValueRecalc (env : Env) (s : St) (n : Node) (v : Val) : St × RecalcRes :=
+  match (s.setValue env n v).2 with
+  | some e => ((s.setValue env n v).1, .refused e)
+  | none =>
+    ((St.recalcTargets env (s.startNodesFrom n) (s.setValue env n v).1).2,
+     (St.recalcTargets env (s.startNodesFrom n) (s.setValue env n v).1).1)
+
 end MxModel.Exec
